@@ -146,9 +146,17 @@ async fn server(mut io: tokio::io::DuplexStream, sc: ServerScript) -> ServerSeen
         }
         None => return seen,
     }
-    let _ = send(&mut io, &out_plan, sent_total, out_plan.len(), limit, &sc.cuts).await;
-    // tunnel payload follows a successful reply at once: the client must hand over exactly these bytes
-    if limit >= out_plan.len() && sc.reply_code == 0 { let _ = io.write_all(AFTER_REPLY).await; }
+    // tunnel payload follows a successful reply at once: the client must hand over exactly these bytes. With an uncut
+    // server stream the payload is part of the very write that carries the reply (one segment on a real network).
+    if limit >= out_plan.len() && sc.reply_code == 0 && sc.cuts.is_empty() {
+        let mut v = out_plan[sent_total..].to_vec();
+        v.extend_from_slice(AFTER_REPLY);
+        let _ = io.write_all(&v).await;
+        let _ = io.flush().await;
+    } else {
+        let _ = send(&mut io, &out_plan, sent_total, out_plan.len(), limit, &sc.cuts).await;
+        if limit >= out_plan.len() && sc.reply_code == 0 { let _ = io.write_all(AFTER_REPLY).await; }
+    }
     // anything else the client sends before we finish is a framing error
     let mut extra = [0u8; 64];
     if let Ok(Ok(n)) = tokio::time::timeout(Duration::from_millis(5), io.read(&mut extra)).await { seen.leftover = n; }
